@@ -179,3 +179,15 @@ Example C14_example :
   exists c', into_bench C14_ex ["f1"; "f2"; "f3"] = Ok c' /\ size c' = 10 /\
              total_on C14_ex [("x", T); ("y", F)].
 Proof. exact C14_ex_ok. Qed.
+
+(* ---- Circuit.into_bench (the driver loop around the converter rules) as the source says it now (translator T10)
+        returns normally exactly when the model does, and equals the model whenever no LT / LEQ gate has a single
+        operand (proved in Proofs/CircuitAlgosGen5.v, also stated under C02); re-stated here so that an edit of the
+        driver breaks a proof obligation of THIS property. ---- *)
+Require Cirbo.Proofs.CircuitAlgosGen5.
+Theorem C14_into_bench_regenerated :
+  (forall c fresh c', Cirbo.Generated.CircuitAlgos.gen_into_bench c fresh = Ok c' <-> into_bench c fresh = Ok c') /\
+  (forall c fresh,
+     (forall x g, In (x, g) (gates c) -> gtyp g = LT \/ gtyp g = LEQ -> length (gops g) <> 1%nat) ->
+     Cirbo.Generated.CircuitAlgos.gen_into_bench c fresh = into_bench c fresh).
+Proof. split; [exact CircuitAlgosGen5.gen_into_bench_ok | exact CircuitAlgosGen5.gen_into_bench_model]. Qed.
